@@ -17,7 +17,7 @@ RULE = ("hyp: entry point (the 4 SequenceParameters show_/save_ phase/Uversky me
         "functions) x arguments (1-5 sequences or coordinate pairs, label(s) given or omitted, title given or default, xLim/yLim in (0,1], "
         "legend on/off, font size, getFig, saveFormat in {png, pdf, svg}); linear-profile plots show_linear{NCPR,FCR,Sigma,Hydropathy}(w, "
         "getFig=True) and save_linear* for generated (sequence, w). enum: region agreement for every (n+, n-, N) with N<=60 (quick) / N<=120 "
-        "(thorough) against the five polygons taken from the drawn figure. Oracle on the captured figure (returned object, or snapshot at "
+        "(thorough) against the five polygons taken from the drawn figure, plus every composition within two residues of a threshold for N up to 400 (quick) / 1000 (thorough); linear plots also for sequences of 200-300 residues (219/220/221/260 always). Oracle on the captured figure (returned object, or snapshot at "
         "savefig/show): one marker per sequence at (f+, f-) resp. (mean net charge, Uversky hydropathy) of the object's own getters; title, "
         "axis limits and label texts as requested; getFig=True returns a non-None object exposing the figure; a save writes a non-empty "
         "file; the marker lies in the closed polygon (1e-9) whose index equals get_phasePlotRegion(); linear plots have exactly N bars, bar "
@@ -265,6 +265,11 @@ def region_cases(tier, seed):
     hi = 60 if tier == "quick" else 120
     for P, M, Z in util.all_compositions(hi):
         yield {"what": "region", "comp": [P, M, Z], "seq": util.spell(util.arrange(P, M, Z, rnd), rnd)}
+    # beyond the exhaustive bound: every composition within two residues of a threshold, for longer sequences
+    from .c08 import band_cases
+    for c in band_cases(tier, seed):
+        if sum(c["comp"]) > hi:
+            yield {"what": "region", "comp": c["comp"], "seq": c["seqs"][0]}
 
 
 LABEL = st.text(alphabet="abcXYZ 123_-", min_size=1, max_size=8)
@@ -274,7 +279,7 @@ LIM = st.one_of(st.just(1), st.just(1.0), st.floats(0.05, 1.0).map(lambda v: rou
 @st.composite
 def hyp_case(draw):
     if draw(st.integers(0, 4)) == 0:
-        seq = draw(gens.sequences(max_len=40))
+        seq = draw(gens.sequences(max_len=40)) if draw(st.integers(0, 5)) else draw(gens.long_charged(200, 300))
         return {"what": "linear", "seq": seq, "w": draw(st.integers(1, len(seq))), "profile": draw(st.sampled_from(sorted(LINEAR))),
                 "how": draw(st.sampled_from(["show", "show", "show", "save"])), "saveFormat": draw(st.sampled_from(["png", "svg", "svg"]))}
     entry = draw(st.sampled_from(["sp", "single", "multiple", "multiple2"]))
@@ -319,6 +324,9 @@ def enum_entry_cases(tier, seed):
                     else:
                         yield dict(v, saveFormat="svg")
                         yield dict(v)
+    for prof in sorted(LINEAR):
+        for n in (219, 220, 221, 260):
+            yield {"what": "linear", "seq": ("GSEKKGDRPSTEEKAGGSQL" * 13)[:n], "w": 5, "profile": prof, "how": "show", "saveFormat": "svg"}
     for prof in sorted(LINEAR):
         for how in ("show", "save"):
             lin = (seqs[0] * 2)[:13]
